@@ -208,13 +208,10 @@ func condGet(cx *callCtx, info condSetInfo, t Term) (Term, types.Type) {
 	typeAt := func(i Term) Term { return e.loadField(st, fmt.Sprintf("(sidx %s %s)", conds, i), ct, ti) }
 	vc.assumeIf(st.pc, fmt.Sprintf("(=> %s (and (<= 0 %s) (< %s (s_len %s)) (= %s %s) (forall ((i Int)) (! (=> (and (<= 0 i) (< i %s)) (not (= %s %s))) :pattern ((sidx %s i))))))", found, j, j, conds, typeAt(j), t, j, typeAt("i"), t, conds))
 	vc.assumeIf(st.pc, fmt.Sprintf("(=> (not %s) (forall ((i Int)) (! (=> (and (<= 0 i) (< i (s_len %s))) (not (= %s %s))) :pattern ((sidx %s i)))))", found, conds, typeAt("i"), t, conds))
-	if cx.spec || vc.noname > 0 {
-		// specification context: denote the element itself
-		return ite(found, fmt.Sprintf("(sidx %s %s)", conds, j), "nil"), ct
-	}
-	loc := e.newObj(st)
-	e.storeAt(st, loc, ct, e.loadAt(st, fmt.Sprintf("(sidx %s %s)", conds, j), ct))
-	return vc.name("cond", "Loc", ite(found, loc, "nil")), ct
+	// Get returns a pointer to a copy of the element; callers only read it, so the model lets it denote
+	// the element itself (no heap write; listed assumption: the returned condition is not mutated).
+	vc.assumes["ConditionSet.Get: the returned *Condition is only read (modelled as a pointer to the list element)"] = true
+	return vc.name("cond", "Loc", ite(found, fmt.Sprintf("(sidx %s %s)", conds, j), "nil")), ct
 }
 
 // condSetStatus: the object's condition list becomes an arbitrary list in which type t has the given
